@@ -18,7 +18,9 @@ Inductive sop :=
 | SDrain (h : Z) (has_out has_err : bool) (souts serrs : list Z) (fuel : nat)
 | SSleep (ms : Z)
 | SUserClose (fd : Z)                            (* the caller's own descriptor activity *)
-| SUserCloexec (fd : Z) (on : bool).
+| SUserCloexec (fd : Z) (on : bool)
+| SUserOpen (fd id : Z) (cloexec : bool)        (* the caller opens an object of its own at number fd *)
+| SUserRlimit (n : Z).                          (* the caller changes its soft RLIMIT_NOFILE *)
 
 Inductive op :=
 | ONew (h : Z)
@@ -137,6 +139,9 @@ Definition exec_sop (o : sop) (s : rstate) : MW (opres * rstate) :=
                end
   | SUserClose fd => user_close fd ;> ret (RUnit, s)
   | SUserCloexec fd on => user_cloexec fd on ;> ret (RUnit, s)
+  | SUserOpen fd id cx =>
+      user_fd_op (fun t => <[fd := {| f_obj := OExt id ARW; f_cloexec := cx; f_nonblock := false |}]> t) ;> ret (RUnit, s)
+  | SUserRlimit n => modify (upd_cur (pr_with_rlimit n)) ;> ret (RUnit, s)
   end.
 
 (* numeric code of an op result, for child-side notes *)
